@@ -9,7 +9,7 @@
  *
  *  PAT <ptype> <patch_funcs> <def_mod>
  *        release_pattern_list(); parse_pattern_list()          -> "P <n>" then n lines
- *        "I <type> <positive> <patt> <module>"
+ *        "I <type> <positive> <patt> <module> <exact_module>"
  *  Q <libname> <soname|-> <symname>
  *        match_pattern_list() on the current list               -> "Q <ret> <bits>" where bit i is
  *        the real match_filter_pattern(item i, symname)
@@ -159,7 +159,7 @@ static void do_pat(void)
 		puthex((unsigned char *)pl->patt.patt, strlen(pl->patt.patt));
 		printf(" ");
 		puthex((unsigned char *)pl->module, strlen(pl->module));
-		printf("\n");
+		printf(" %d\n", pl->exact_module);
 	}
 	free(funcs);
 	free(defmod);
